@@ -502,6 +502,17 @@ func weightlessAdder(g *fleetGen) {
 		v := []float64{math.NaN(), math.Inf(1), -maxv * 2, 1, -5, g.value(n)}[r.Intn(6)]
 		w := []float64{0, 0, 1, 2, -1}[r.Intn(5)]
 		g.emit(engine.Event{Ev: "badadd", N: n.id, V: engine.F64(v), W: engine.F64(w)})
+		if pick := r.Intn(1000); pick < 60 {
+			// a long chain of snapshots, hops or one-value merges on a copy of the node
+			mode := "copy"
+			switch {
+			case pick < 4:
+				mode = "wire"
+			case pick < 30:
+				mode = "merge"
+			}
+			g.emit(engine.Event{Ev: "marathon", N: n.id, I: int64([]int{300, 1000, 4000}[r.Intn(3)]), S: mode, V: engine.F64(math.Abs(g.value(n)))})
+		}
 		if o := g.otherMapping(n); o != nil && r.Pct(50) {
 			g.emit(engine.Event{Ev: "badmerge", N: n.id, M: o.id})
 			if r.Pct(50) {
